@@ -229,6 +229,7 @@ func verifParam(name string, def int) int {
 	return def
 }
 func verifExpectMake(fn string, max int) {}
+func verifExpectMakeEq(fn string, n int)  {}
 func verifWaitCond(f func() bool) {
 	for i := 0; i < 2000 && !f(); i++ {
 		time.Sleep(time.Millisecond)
